@@ -25,6 +25,7 @@ thread_local! {
     static READ_IN_CLOSURES: Cell<bool> = Cell::new(false);
     static IN_HANDLER: Cell<Option<u8>> = Cell::new(None);
     static IN_NODE_HANDLER: Cell<bool> = Cell::new(false);
+    static IN_OBS_CB: Cell<bool> = Cell::new(false);
     /// what kind of closure the injected fault fired in: 0 = node function / bind closure /
     /// cutoff, 1 = update handler
     static FAULT_FIRED_IN: Cell<Option<u8>> = Cell::new(None);
@@ -39,6 +40,7 @@ pub fn clear_fault_fired() {
 pub fn reset_handler_flags() {
     IN_HANDLER.with(|c| c.set(None));
     IN_NODE_HANDLER.with(|c| c.set(false));
+    IN_OBS_CB.with(|c| c.set(false));
 }
 
 pub fn log(ev: Ev) {
@@ -70,6 +72,7 @@ fn read_observers() {
             let r = h.try_get_value().map_err(|e| ObsErr::from_real(&e));
             match in_handler {
                 Some(sub) => log(Ev::ReadInHandler { sub, slot: i as u8, result: r }),
+                None if IN_OBS_CB.with(|c| c.get()) => log(Ev::ReadInObsCb { slot: i as u8, result: r }),
                 None => log(Ev::ReadInFn { slot: i as u8, result: r }),
             }
         }
@@ -131,6 +134,7 @@ fn apply_cut(incr: &Incr<Val>, n: u8, cut: Cut) {
             log(Ev::Cutoff { node: n, old: a.clone(), new: b.clone() });
             a.num().rem_euclid(2) == b.num().rem_euclid(2)
         }),
+        Cut::QuietPar => incr.set_cutoff(Cutoff::Fn(|a: &Val, b: &Val| a.num().rem_euclid(2) == b.num().rem_euclid(2))),
     }
 }
 
@@ -340,6 +344,48 @@ impl GraphWorld {
                 .node(*a)
                 .zip(&self.node(*b))
                 .map(|(a, b): &(Val, Val)| Val::pair(a.clone(), b.clone())),
+            Recipe::Xp(a) => {
+                use incremental::expert::{Dependency, Node as XNode};
+                let dep: Rc<RefCell<Option<Dependency<Val>>>> = Rc::new(RefCell::new(None));
+                let slot: Rc<RefCell<Option<Val>>> = Rc::new(RefCell::new(None));
+                let (dep_, slot_, k) = (dep.clone(), slot.clone(), key.clone());
+                // an observability callback may own a Var handle (it is not an observer)
+                let write_to: Option<Var<Val>> = self.prog.alpha.obs_cb_sets_var.and_then(|v| self.vars.get(v as usize).cloned().flatten());
+                let x = XNode::<Val>::new_(
+                    &self.state.weak(),
+                    move || {
+                        enter();
+                        let x = dep_.borrow().as_ref().expect("static dependency").value_cloned();
+                        log(Ev::Run { key: k.clone(), args: vec![x.clone()] });
+                        // the edge callback must have delivered this very value before the recompute
+                        debug_assert!(slot_.borrow().is_some());
+                        F1::Inc.apply(&x)
+                    },
+                    move |now: bool| {
+                        IN_OBS_CB.with(|c| c.set(true));
+                        // clear the flag on unwind too (injected faults)
+                        struct Reset;
+                        impl Drop for Reset {
+                            fn drop(&mut self) {
+                                IN_OBS_CB.with(|c| c.set(false));
+                            }
+                        }
+                        let _r = Reset;
+                        enter();
+                        log(Ev::ObsChange { node: i, now });
+                        if let Some(var) = &write_to {
+                            var.set(Val::I(now as i32));
+                        }
+                    },
+                );
+                let d = x.add_dependency_with(&self.node(*a), move |v: &Val| {
+                    enter();
+                    log(Ev::EdgeCb { node: i, val: v.clone() });
+                    *slot.borrow_mut() = Some(v.clone());
+                });
+                *dep.borrow_mut() = Some(d);
+                x.watch()
+            }
             Recipe::Bind { lhs, even, odd } => {
                 let mut refs: HashMap<u8, Incr<Val>> = HashMap::new();
                 let mut r = vec![];
@@ -649,6 +695,22 @@ impl GraphWorld {
                         }
                     }
                 }
+                Ev::ObsChange { .. } | Ev::EdgeCb { .. } => {}
+                Ev::ReadInObsCb { slot, result } => {
+                    // An observability callback is user code running inside stabilise(), but not a node function:
+                    // the property only demands that no value moves before the boundary. Accepted: the
+                    // CurrentlyStabilising error, or exactly what the handle returned after the last stabilise.
+                    if armed("C07") {
+                        let last = self.last_read.get(*slot as usize).cloned().flatten();
+                        let ok = match result {
+                            Err(_) => true,
+                            r => last.as_ref() == Some(r),
+                        };
+                        if !ok {
+                            vs.push(v("C07", "C07.read_in_obs_callback", "", format!("observer slot {slot} read from inside an observability callback returned {result:?}; accepted: an error or its value after the last stabilise ({last:?})")));
+                        }
+                    }
+                }
                 Ev::ReadInHandler { sub, slot, result } => {
                     if armed("C07") {
                         let exp = m.expected_read(*slot);
@@ -662,7 +724,7 @@ impl GraphWorld {
                     }
                 }
             }
-            if ev.is_user_fn() {
+            if ev.is_node_fn() {
                 last_fn_pos = Some(pos);
             }
         }
@@ -731,7 +793,7 @@ impl GraphWorld {
             }
         }
         if armed("C05") && out.live_observers == 0 {
-            let user_fns = log.iter().filter(|e| e.is_user_fn()).count();
+            let user_fns = log.iter().filter(|e| e.is_node_fn()).count();
             if user_fns > 0 || recomputed_delta > 0 {
                 vs.push(v("C05", "C05.no_observers", "", format!("no live observers, yet {user_fns} user functions ran and stats().recomputed moved by {recomputed_delta}")));
             }
@@ -1002,6 +1064,13 @@ impl World for GraphWorld {
             let i = w.node(*p);
             w.observe_real(&i);
         }
+        if !prog.start_observed.is_empty() {
+            for n in prog.start_observed.iter() {
+                let _ = w.step(&Act::Observe(*n), false);
+            }
+            let _ = w.step(&Act::Stabilise, false);
+            w.obs_hash = 0;
+        }
         w
     }
 
@@ -1224,7 +1293,7 @@ impl World for GraphWorld {
             }
         } else if check {
             // no user function may run outside stabilise
-            if log.iter().any(|e| e.is_user_fn()) && self.cfg.is_armed("C05") {
+            if log.iter().any(|e| e.is_node_fn()) && self.cfg.is_armed("C05") {
                 vs.push(v("C05", "C05.outside_stabilise", "", format!("user functions ran during {a:?}: {log:?}")));
             }
         }
@@ -1240,6 +1309,14 @@ impl World for GraphWorld {
                 }
             }
         }
+        // the same for writes issued by observability callbacks (whether a callback ran is read off the log)
+        if let (Some(_), Some(var)) = (&round, self.prog.alpha.obs_cb_sets_var) {
+            for ev in log.iter() {
+                if let Ev::ObsChange { now, .. } = ev {
+                    self.model.set_var(var, *now as i32);
+                }
+            }
+        }
         if check {
             if self.cfg.is_armed("C11") {
                 for f in self.state.verif_audit() {
@@ -1251,7 +1328,8 @@ impl World for GraphWorld {
                         self.note("audit_diagnostics");
                     }
                 }
-                let handler_wrote = self.prog.alpha.handler_sets_var.is_some() && log.iter().any(|e| matches!(e, Ev::Handler { .. }));
+                let handler_wrote = (self.prog.alpha.handler_sets_var.is_some() && log.iter().any(|e| matches!(e, Ev::Handler { .. })))
+                    || (self.prog.alpha.obs_cb_sets_var.is_some() && log.iter().any(|e| matches!(e, Ev::ObsChange { .. })));
                 if round.is_some() && !handler_wrote && !self.state.is_stable() {
                     vs.push(v("C11", "C11.not_stable_after_stabilise", "", "is_stable() is false right after a stabilise in which no user function wrote a variable".to_string()));
                 }
